@@ -578,6 +578,12 @@ func Gen(seed int64, index int, o GenOpts) *Case {
 			}
 			dts := pts0
 			curParam := 0
+			if nParams > 1 && !sp.BFrames && o.Profile != "regular" && (uint64(seed)*7+uint64(index))%4 == 2 {
+				// the parameters the track was configured with are not the ones the stream starts
+				// with (placeholders, or a camera that was reconfigured in the meantime)
+				curParam = 1 + int((uint64(seed)+uint64(index))%uint64(nParams-1))
+				c.Features["configured-params-differ"] = true
+			}
 			gopIdx := 0
 			var ntpStepAcc time.Duration
 			frame := 0
@@ -655,6 +661,10 @@ func Gen(seed int64, index int, o GenOpts) *Case {
 				}
 				if sp.Kind == AV1 && chance(0.3) {
 					vo.OBUNoSize = true
+				}
+				if sp.Kind == AV1 && (uint64(seed)*7+uint64(index)*5)%3 == 0 {
+					vo.AV1Delimiter = true
+					c.Features["av1-temporal-delimiter"] = true
 				}
 				if sp.Kind == VP9 && !ra && (n*7+index)%5 == 0 {
 					vo.VP9ShowExisting = true
